@@ -107,6 +107,17 @@ CLAIMED['C18'] = (
     'library for the Ramey differential; tools/extract.py; sampled pairs trusted (DESIGN §5)',
     'Lean 4 proof (corollaries over exact models, one real-analysis lemma, regenerated table) + ordered-pair runs')
 
+CLAIMED['C07'] = (
+    'Lean theorems for every declaration (any Min, Max, default, allowable set) and every value incl. NaN and the infinities: a float below Min / '
+    'above Max is rejected with a message built around the parameter name, values at and inside the bounds are accepted and stored exactly, an '
+    'accepted read never alters the value (no clamping, no defaulting), NaN is rejected (kernel-checked witness that the comparison of the pinned tree '
+    'accepted it: F11, fixed), integers / options outside the allowable set are rejected and the default-sentinel / current value are the only bypasses; '
+    'every float and integer declaration of every module class in every configuration family is re-extracted on each run and proved well-formed '
+    '(decide +kernel); tied to the code by an exhaustive unit-level differential of the real ReadParameter (about 9500 probes) and pipeline-level runs.',
+    'kernel + propext/Classical.choice/Quot.sound; tools/extract.py; CPython float()/int() parsing; int-vs-Enum equality evaluated in Python; list / '
+    'string / bool parameters out of scope; pipeline level is sampled in the quick tier (DESIGN §5)',
+    'Lean 4 proof over an IEEE-aware model + regenerated declaration table (decide +kernel) + exhaustive unit-level differential')
+
 PENDING_REASON = 'check not built yet in this commit (work in progress; see DESIGN.md §9 for the order)'
 
 
